@@ -13,7 +13,7 @@
 //!   `begin build(cancel=n) abort dump`, over ~120 points spread over the whole build plus its
 //!   last 30 polls (thorough: every 3rd). Three flavours: items committed and never built; a
 //!   built index with 50 deletions + 300 insertions committed but not built; the first one in
-//!   the smallest map in which the items fit but the build answers `MDB_MAP_FULL` (the sweep
+//!   the greatest map (steps of 4 pages) in which the build still answers `MDB_MAP_FULL` (the sweep
 //!   then covers the polls up to the failure).
 //! * **mapsize** — the same generated history (profile `c10map`) under 12 map sizes from
 //!   64 KiB to 256 MiB, one case each; the first `MDB_MAP_FULL` is followed by `abort`,
@@ -349,7 +349,8 @@ fn mem_sweep_case(
 ) -> Result<(), String> {
     let plan = mem_plan(seed, flavour);
     let w = plan.m.w;
-    // the tiny map: the smallest size in which the items can be committed but not built
+    // the tiny map: the greatest size (in steps of 4 pages) in which the items can be committed
+    // but the build still runs into MDB_MAP_FULL
     let mut mapsize = DEFAULT_MAPSIZE;
     if flavour == MemFlavour::TinyMap {
         let mut found = None;
@@ -366,9 +367,11 @@ fn mem_sweep_case(
             let full = ex.last_res.starts_with("err mapfull");
             ex.finish();
             if full {
+                // keep the greatest such size: the failure then comes late in the build
                 found = Some(size);
+            } else {
+                break;
             }
-            break;
         }
         match found {
             Some(size) => mapsize = size,
